@@ -34,6 +34,7 @@ func (s *Server) handlePropagatedRequest(m *nats.Msg) {
 		s.logger.Warnf("Invalid propagated request: missing payload for operation %s", req.Op)
 		return
 	}
+	verifGate("propagate.received." + s.config.Clustering.ServerID)
 	switch req.Op {
 	case proto.Op_CREATE_STREAM:
 		resp = s.handleCreateStream(req)
